@@ -134,5 +134,51 @@ impl CacheConfigBuilder {
             r.config.key_extractor == self.key_extractor->0 && r.config.event_listeners == self.event_listeners && r.config.name == self.name,   // #extractor_listeners_and_name_are_exactly_what_was_set [C10]
     //@body CacheConfigBuilder::build
 }
+
+// ===== shared cache layer builder (C10) =====
+pub struct SharedCacheLayer { pub config: CacheConfig }
+impl SharedCacheLayer {
+    /// contract of the real constructor, proved in unit `cache` (the shared store is built from exactly this configuration)
+    #[verifier::external_body] pub fn new(config: CacheConfig) -> (r: Self) ensures r.config == config { unimplemented!() }
+}
+pub struct SharedCacheConfigBuilder { pub max_size: usize, pub ttl: Option<Duration>, pub eviction_policy: EvictionPolicy, pub key_extractor: Option<KeyExtractor>, pub event_listeners: EventListeners, pub name: Name }
+impl SharedCacheConfigBuilder {
+    pub fn new() -> (r: Self)
+        ensures r.max_size >= 1 && r.ttl is None && r.key_extractor is None && r.event_listeners.n@ == 0,   // #defaults_bounded_without_ttl [C10]
+    //@body SharedCacheConfigBuilder::new file=cashared
+    pub fn max_size(self, size: usize) -> (r: Self)
+        ensures r.max_size == size,   // #sets_max_size [C10]
+            r.ttl == self.ttl && r.eviction_policy == self.eviction_policy && r.key_extractor == self.key_extractor && r.event_listeners == self.event_listeners && r.name == self.name,   // #keeps_every_other_setting [C10]
+    //@body SharedCacheConfigBuilder::max_size file=cashared
+    pub fn ttl(self, ttl: Duration) -> (r: Self)
+        ensures r.ttl == Some(ttl),   // #sets_ttl [C10]
+            r.max_size == self.max_size && r.eviction_policy == self.eviction_policy && r.key_extractor == self.key_extractor && r.event_listeners == self.event_listeners && r.name == self.name,   // #keeps_every_other_setting [C10]
+    //@body SharedCacheConfigBuilder::ttl file=cashared
+    pub fn eviction_policy(self, policy: EvictionPolicy) -> (r: Self)
+        ensures r.eviction_policy == policy,   // #sets_eviction_policy [C10]
+            r.max_size == self.max_size && r.ttl == self.ttl && r.key_extractor == self.key_extractor && r.event_listeners == self.event_listeners && r.name == self.name,   // #keeps_every_other_setting [C10]
+    //@body SharedCacheConfigBuilder::eviction_policy file=cashared
+    pub fn key_extractor<F>(self, f: F) -> (r: Self)
+        ensures r.key_extractor is Some,   // #installs_a_key_extractor [C10]
+            r.max_size == self.max_size && r.ttl == self.ttl && r.eviction_policy == self.eviction_policy && r.event_listeners == self.event_listeners && r.name == self.name,   // #keeps_every_other_setting [C10]
+    //@body SharedCacheConfigBuilder::key_extractor file=cashared
+    pub fn name(self, name: Name) -> (r: Self)
+        ensures r.max_size == self.max_size && r.ttl == self.ttl && r.eviction_policy == self.eviction_policy && r.key_extractor == self.key_extractor && r.event_listeners == self.event_listeners,   // #keeps_every_other_setting [C10]
+    //@body SharedCacheConfigBuilder::name file=cashared
+    pub fn on_hit<F>(self, f: F) -> (r: Self)
+        ensures r.max_size == self.max_size && r.ttl == self.ttl && r.eviction_policy == self.eviction_policy && r.key_extractor == self.key_extractor && r.name == self.name,   // #listener_registration_keeps_every_setting [C10]
+    //@body SharedCacheConfigBuilder::on_hit file=cashared
+    pub fn on_miss<F>(self, f: F) -> (r: Self)
+        ensures r.max_size == self.max_size && r.ttl == self.ttl && r.eviction_policy == self.eviction_policy && r.key_extractor == self.key_extractor && r.name == self.name,   // #listener_registration_keeps_every_setting [C10]
+    //@body SharedCacheConfigBuilder::on_miss file=cashared
+    pub fn on_eviction<F>(self, f: F) -> (r: Self)
+        ensures r.max_size == self.max_size && r.ttl == self.ttl && r.eviction_policy == self.eviction_policy && r.key_extractor == self.key_extractor && r.name == self.name,   // #listener_registration_keeps_every_setting [C10]
+    //@body SharedCacheConfigBuilder::on_eviction file=cashared
+    pub fn build(self) -> (r: SharedCacheLayer)
+        requires self.key_extractor is Some,   // build() panics otherwise
+        ensures r.config.max_size == self.max_size && r.config.ttl == self.ttl && r.config.eviction_policy == self.eviction_policy,   // #bound_ttl_and_policy_are_exactly_what_was_set [C10]
+            r.config.key_extractor == self.key_extractor->0 && r.config.event_listeners == self.event_listeners && r.config.name == self.name,   // #extractor_listeners_and_name_are_exactly_what_was_set [C10]
+    //@body SharedCacheConfigBuilder::build file=cashared
+}
 fn main() {}
 }
